@@ -65,6 +65,7 @@ class Engine(CoreMixin, ExprMixin, CallMixin, StmtMixin, SpecMixin):
         rep = FunctionReport(contract)
         t0 = time.time()
         self.contract = contract
+        self.tree.prefer_stem = self.tree.abspath(contract.file).rsplit('.', 1)[0]
         self.init_core()
         self.notes = set()
         self.used_contracts = set()
@@ -74,6 +75,10 @@ class Engine(CoreMixin, ExprMixin, CallMixin, StmtMixin, SpecMixin):
         except Unsupported as e:
             rep.status = 'unsupported'
             rep.detail = str(e)
+            import os
+            if os.environ.get('VERIF_DEBUG'):
+                print('DEBUG unsupported in %s: %s' % (contract.label, e))
+                traceback.print_exc()
         except KeyError as e:
             rep.status = 'unsupported'
             rep.detail = 'contract anchor not found: %s' % (e,)
